@@ -392,6 +392,12 @@ func (g *Gen) HistoryIO() []E {
 			evs = append(evs, E{"op": "Import", "c": names[1], "path": "inv.json"})
 		case 5: // export of a missing collection
 			evs = append(evs, E{"op": "Export", "c": "never-created", "path": "x.json"})
+			// ... and an export that cannot write its file, followed by one that can: what the failed one leaves
+			// behind (in the process, not in the database) must not reach the next file
+			evs = append(evs, E{"op": "Export", "c": src, "path": "nodir/exp.json"},
+				E{"op": "Export", "c": other, "path": "exp2.json", "audit": true},
+				E{"op": "Import", "c": "after-failed-export", "path": "exp2.json"},
+				E{"op": "FindAll", "c": "after-failed-export", "q": []interface{}{}})
 		case 6: // a well-formed hand-written file
 			d1 := g.jsonTypedDoc(AStr(g.ids[2]))
 			d2 := g.jsonTypedDoc(AStr(g.ids[3]))
@@ -743,6 +749,9 @@ func (g *Gen) HistoryExpiry() []E {
 	evs = append(evs, E{"op": "FindAll", "c": c, "q": []interface{}{sortX}})
 	evs = append(evs, E{"op": "FindAll", "c": c, "q": []interface{}{[]interface{}{"sort", []interface{}{[]interface{}{B("_expiresAt"), 1}, []interface{}{B("_id"), 1}}}}})
 	evs = append(evs, E{"op": "Derived", "c": c, "q": []interface{}{where("gt", ANum(g.smallN[0], "i")), sortX}, "js": []interface{}{0, 1}, "ids": []interface{}{B(g.ids[0]), B(g.ids[4])}})
+	// the derived reads on the whole collection: with no criteria Count may take another path than FindAll
+	evs = append(evs, E{"op": "Derived", "c": c, "q": []interface{}{}, "js": []interface{}{0, 2}, "ids": []interface{}{B(g.ids[1]), B(g.ids[2])}})
+	evs = append(evs, E{"op": "Derived", "c": c, "q": []interface{}{sortX, []interface{}{"skip", 1}}, "js": []interface{}{1}, "ids": []interface{}{B(g.ids[1])}})
 	evs = append(evs, E{"op": "Delete", "c": c, "q": []interface{}{where("gt", ANum(g.smallN[1], "i"))}, "audit": true})
 	evs = append(evs, E{"op": "Count", "c": c, "q": []interface{}{}, "audit": true})
 	return evs
